@@ -201,13 +201,14 @@ def _merge(agg, other):
 
 def _alphabet_task(args):
     """all strings prefix + w, w over the alphabet with len(w) == rest, in the given modes/settings"""
-    prefix, rest, settings = args
+    prefix, rest, settings = args[:3]
+    alpha = EXTENDED if len(args) > 3 and args[3] == 'extended' else ALPHABET
     agg = {}
     sigs = set()
     n = 0
     tmax = 0.0
-    head = ''.join(ALPHABET[i] for i in prefix)
-    for tup in itertools.product(ALPHABET, repeat=rest):
+    head = ''.join(alpha[i] for i in prefix)
+    for tup in itertools.product(alpha, repeat=rest):
         text = head + ''.join(tup)
         for mode, pc, va in settings:
             n += 1
@@ -240,7 +241,12 @@ def _known_index(ctx):
 def _known_id(index, site, stage, frames=(), msg=''):
     import re
     for kid, s in index:
-        if (s['exc'], s['file'], s['function']) != tuple(site):
+        if (s['exc'], s['file']) != tuple(site[:2]):
+            continue
+        if 'function_re' in s:
+            if not re.search(s['function_re'], site[2]):
+                continue
+        elif s['function'] != site[2]:
             continue
         if 'stages' in s and stage not in s['stages']:
             continue
@@ -287,14 +293,14 @@ DEFAULT_SETTINGS = [('sheet', True, True), ('style', True, True)]
 ALL_SETTINGS = [(m, pc, va) for m in ('sheet', 'style') for pc in (True, False) for va in (True, False)]
 
 
-def _alphabet_tasks(maxlen, settings):
-    n = len(ALPHABET)
-    tasks = [((), 0, settings)]
+def _alphabet_tasks(maxlen, settings, which='base'):
+    n = len(ALPHABET) if which == 'base' else len(EXTENDED)
+    tasks = [((), 0, settings, which)]
     for L in range(1, maxlen + 1):
-        if L <= 3:
-            tasks += [((i,), L - 1, settings) for i in range(n)]
+        if L <= 3 and which == 'base' or L <= 2:
+            tasks += [((i,), L - 1, settings, which) for i in range(n)]
         else:
-            tasks += [((i, j), L - 2, settings) for i in range(n) for j in range(n)]
+            tasks += [((i, j), L - 2, settings, which) for i in range(n) for j in range(n)]
     return tasks
 
 
@@ -303,7 +309,8 @@ def alphabet(ctx):
     maxlen = 3 if ctx.tier == 'quick' else 4
     sublen = 2 if ctx.tier == 'quick' else 3
     other = [s for s in ALL_SETTINGS if s not in DEFAULT_SETTINGS]
-    tasks = _alphabet_tasks(maxlen, DEFAULT_SETTINGS) + _alphabet_tasks(sublen, other)
+    extlen = 2 if ctx.tier == 'quick' else 3
+    tasks = _alphabet_tasks(maxlen, DEFAULT_SETTINGS) + _alphabet_tasks(sublen, other) + _alphabet_tasks(extlen, DEFAULT_SETTINGS, 'extended')
     tasks.sort(key=lambda t: -t[1])
     agg = {}
     sigs = set()
@@ -321,6 +328,8 @@ def alphabet(ctx):
     ctx.bounded.append({'name': 'token-snippet strings', 'evaluations': n, 'distinct_nontrivial': len(sigs), 'exhaustive': True,
                         'rule': f'ALL {nstr} concatenations of <= {maxlen} snippets from a {len(ALPHABET)}-snippet alphabet, each as a sheet (CSSParser.parseString) and as a style '
                                 f'attribute (parseStyle) with default options, and all concatenations of <= {sublen} snippets under the other three parseComments x validate settings; '
+                                f'all concatenations of <= {extlen} snippets of the extended alphabet ({len(EXTENDED)} snippets: + escaped structural characters, margin-box / case / escaped at-keywords, colour '
+                                'functions, priorities, number shapes, control characters) in both modes; '
                                 'per input: parse, class of the result, cssText, parse of that, cssText again, 10 s alarm; distinct = shape of the resulting DOM (first rule types / declaration and item counts)',
                         'samples': [{'text': 'a{b:c}', 'mode': 'sheet'}, {'text': '-->@import', 'mode': 'sheet'}, {'text': 'b:crgb(', 'mode': 'style'}],
                         'bound': f'<= {maxlen} snippets (<= {sublen} for non-default parser options); slowest first parse {tmax * 1000:.0f} ms; {time.time() - t0:.1f} s wall',
@@ -419,7 +428,7 @@ def truncations(ctx):
     for fn in files:
         text, cuts = _file_cuts(fn)
         total += len(cuts)
-    stride = 1 if ctx.tier != 'quick' else max(1, total // 1000)
+    stride = 1 if ctx.tier != 'quick' else max(1, total // 700)
     for k, fn in enumerate(files):
         text, cuts = _file_cuts(fn)
         step = 200
@@ -503,11 +512,46 @@ WIDTH = {
     'garbage ;': ('sheet', lambda n: ';' * n),
     'unclosed strings': ('sheet', lambda n: '"\n' * n),
     'backslashes': ('sheet', lambda n: '\\' * n),
+    'value items, comma': ('style', lambda n: 'b:' + ','.join(['1'] * n)),
+    'value items, slash': ('style', lambda n: 'b:' + '/'.join(['1'] * n)),
+    'value items in a rule': ('sheet', lambda n: 'a{b:' + ' c' * n + '}'),
+    'value strings': ('style', lambda n: 'b:' + ' "s"' * n),
+    'value urls': ('style', lambda n: 'b:' + ' url(x)' * n),
+    'value functions': ('style', lambda n: 'b:' + ' f(1)' * n),
+    'value colours': ('style', lambda n: 'color:' + ' #abc' * n),
+    'value comments': ('style', lambda n: 'b:' + '/*c*/' * n + '1'),
+    'calc operands': ('style', lambda n: 'b:calc(' + ' + '.join(['1'] * n) + ')'),
+    'var fallbacks': ('style', lambda n: 'b:' + ' var(x, 1)' * n),
+    'font-family list': ('style', lambda n: 'font-family:' + ','.join(['"s"'] * n)),
+    'descendant selectors': ('sheet', lambda n: 'a ' * n + '{b:c}'),
+    'child selectors': ('sheet', lambda n: '>'.join(['a'] * n) + '{b:c}'),
+    'attribute selectors': ('sheet', lambda n: 'a' + '[b]' * n + '{b:c}'),
+    'pseudo selectors': ('sheet', lambda n: 'a' + ':hover' * n + '{b:c}'),
+    ':not selectors': ('sheet', lambda n: 'a' + ':not(.x)' * n + '{b:c}'),
+    'media features': ('sheet', lambda n: '@media all' + ' and (color)' * n + '{a{b:c}}'),
+    'rules in @media': ('sheet', lambda n: '@media all{' + 'a{b:c}' * n + '}'),
+    'declarations in a rule': ('sheet', lambda n: 'a{' + 'b:c;' * n + '}'),
+    'declarations in @page': ('sheet', lambda n: '@page{' + 'b:c;' * n + '}'),
+    'margin boxes in @page': ('sheet', lambda n: '@page{' + '@top-left{b:c}' * n + '}'),
+    'declarations in @font-face': ('sheet', lambda n: '@font-face{' + 'b:c;' * n + '}'),
+    'variables': ('sheet', lambda n: '@variables{' + ''.join(f'v{i}:1;' for i in range(n)) + '}'),
+    'namespaces': ('sheet', lambda n: ''.join(f'@namespace p{i} "u{i}";' for i in range(n)) + 'a{b:c}'),
+    'unknown rules': ('sheet', lambda n: '@x y;' * n),
+    'unknown rule blocks': ('sheet', lambda n: '@x {' + 'a{b:c}' * n + '}'),
+    'unknown rule strings': ('sheet', lambda n: '@x ' + '"s" ' * n + ';'),
+    'important declarations': ('style', lambda n: 'b:c!important;' * n),
+    'invalid declarations': ('style', lambda n: 'b;' * n),
+    'CDO CDC': ('sheet', lambda n: '<!-- -->' * n),
+    'colons': ('sheet', lambda n: ':' * n),
+    'line feeds': ('sheet', lambda n: 'a{b:c}\n' * n),
 }
+WIDTH_CAP = {'imports': (400, 1600), 'rules': (800, 3200), 'line feeds': (800, 3200), 'variables': (800, 3200), 'namespaces': (800, 3200), 'rules in @media': (800, 3200),
+             'margin boxes in @page': (800, 3200), 'important declarations': (800, 3200), 'declarations': (800, 3200), 'declarations in a rule': (800, 3200),
+             'declarations in @page': (800, 3200), 'declarations in @font-face': (800, 3200)}   # quadratic families: largest size in the quick / thorough tier (4 s / 20 s budget)
 # width INSIDE single tokens: the size is the length of a run of one character (or a short unit) inside one token, closed, cut by
 # a line feed, or cut by the end of input; as a sheet, inside a declaration value and as a style attribute
 TOKEN_WIDTH = {}
-_UNITS = {'a': 'a', 'star': '*', 'backslash': '\\', 'escaped quote': '\\"', 'hex escape': '\\61 ', 'short hex escape': '\\a', 'other quote': "'", 'space': ' ', 'slash': '/',
+_UNITS = {'a': 'a', 'star': '*', 'backslash': '\\', 'escaped quote': '\\"', 'hex escape': '\\61 ', 'short hex escape': '\\a', 'hex escape without space': '\\61', 'upper-case hex escape': '\\A', 'hex escape + CRLF': '\\61\r\n', 'other quote': "'", 'space': ' ', 'slash': '/',
           'escaped line feed': '\\\n', 'non-ASCII': '\xe9', 'digit': '1', 'star slash star': '*/*', 'star a': '*a'}
 for _uname, _u in _UNITS.items():
     for _tname, _open, _ends in [
@@ -538,7 +582,8 @@ for _uname, _u in [('a', 'a'), ('digit', '1'), ('hyphen', '-'), ('underscore', '
 for _tname, _fmt in [('integer', '{d}'), ('signed integer', '+{d}'), ('fraction digits', '0.{d}'), ('integer and fraction', '{d}.5'), ('both long', '{d}.{d}'), ('dimension', '{d}px'),
                      ('dimension with fraction', '{d}.5em'), ('percentage', '{d}%'), ('percentage with fraction', '{d}.5%'), ('leading zeros', '{z}1'), ('trailing zeros', '1.{z}'),
                      ('zero dimension', '{z}px'), ('exponent look-alike', '1e{d}'), ('unicode-range', 'U+{d}'), ('hash digits', '#{d}'), ('rgb argument', 'rgb({d},{d},{d})'),
-                     ('hsl argument', 'hsl({d},{d}%,{d}%)'), ('rgba alpha', 'rgba(1,2,3,0.{d})'), ('function argument', 'f({d})'), ('calc operand', 'calc({d} + {d}.5px)'),
+                     ('hsl argument', 'hsl({d},{d}%,{d}%)'), ('hsl fraction argument', 'hsl({d}.5,{d}.5%,1%)'), ('rgb percentage argument', 'rgb({d}%,{d}.5%,1%)'),
+                     ('hsla alpha', 'hsla(1,2%,3%,{d})'), ('hue only long', 'hsl({d},2%,3%)'), ('rgba alpha', 'rgba(1,2,3,0.{d})'), ('function argument', 'f({d})'), ('calc operand', 'calc({d} + {d}.5px)'),
                      ('nth argument', None)]:
     if _fmt is None:
         TOKEN_WIDTH[f'number run: {_tname}, selector'] = ('sheet', (lambda n: 'a:nth-child(' + '1' * n + 'n+' + '1' * n + '){b:c}'))
@@ -549,7 +594,8 @@ for _tname, _fmt in [('integer', '{d}'), ('signed integer', '+{d}'), ('fraction 
 TOKEN_SIZES = (4, 8, 16, 32, 64, 128, 256, 512, 1024, 2048, 4096, 8192)   # thorough: every size is twice its predecessor
 TOKEN_SIZES_QUICK = (8, 16, 32, 64, 256, 512, 4096, 8192)                 # quick: the pairs 8-16-32-64, 256-512, 4096-8192
 DEPTHS = (5, 10, 20, 25, 50, 100)          # pairs (d, 2d): 5-10, 10-20, 25-50, 50-100
-WIDTHS = (50, 100, 200, 400)               # pairs (n, 2n)
+WIDTHS = (50, 100, 200, 400, 800, 1600)    # pairs (n, 2n); the thorough tier adds 3200
+DIGIT_COUNTS = (15, 16, 17, 18, 19, 20, 21, 22, 23, 305, 306, 307, 308, 309, 310, 311, 4299, 4300, 4301)  # around the float and int conversion limits
 RATIO_LIMIT = 20.0                         # t(2x)/t(x) allowed: 2^3 (cubic) with a 2.5 x allowance for scheduling noise
 TIME_FLOOR = 0.008                         # s: the CPU clock ticks in 4 ms steps here; times below the floor are raised to it
 
@@ -571,7 +617,10 @@ def _sweep_task(args):
     rows = []
     fails = []
     times = {}
+    base = budget
     for d in sizes:
+        # the CPU budget grows linearly with the size: an exponential family runs out of it at size 16-64, a polynomial one keeps within it
+        budget = base + (d * 0.0005 if kind == 'token' else 0.0)
         fail, best = _timed(mode, gen(d), budget)
         times[d] = best
         rows.append((d, round(best, 4)))
@@ -599,10 +648,15 @@ def sweeps(ctx):
     index = _known_index(ctx)
     budget = 4.0 if ctx.tier == 'quick' else 20.0
     tasks = [('nesting', name, DEPTHS, budget) for name in NESTING] + [('width', name, WIDTHS, budget) for name in WIDTH]
+    numfams = [n for n in TOKEN_WIDTH if n.startswith('number run')]
+    tasks += [('token', name, DIGIT_COUNTS, budget) for name in numfams]
+    if ctx.tier != 'quick':
+        tasks = [(k, nm, sz + (3200,) if k == 'width' else sz, b) for k, nm, sz, b in tasks]
+    tasks = [(k, nm, tuple(x for x in sz if k != 'width' or x <= WIDTH_CAP.get(nm, (3200, 3200))[0 if ctx.tier == 'quick' else 1]), b) for k, nm, sz, b in tasks]
     if ctx.tier == 'quick':
         # token-internal runs: the tokenizer does not depend on the position, so the quick tier leaves out the 'declaration value' copies of the string-like families
         tnames = [n for n in TOKEN_WIDTH if n.startswith('number run') or not n.endswith(', declaration value')]
-        tasks += [('token', name, TOKEN_SIZES_QUICK, 1.5) for name in tnames]
+        tasks += [('token', name, TOKEN_SIZES_QUICK, 0.5) for name in tnames]
     else:
         tnames = list(TOKEN_WIDTH)
         tasks += [('token', name, TOKEN_SIZES, budget) for name in tnames]
@@ -617,7 +671,7 @@ def sweeps(ctx):
             gen = FAMILIES[kind][name][1]
             for d, t in rows:
                 done.add((name, d))
-                if d in (100, 400, 8192) and t > worst[0]:
+                if d in (100, 1600, 8192) and t > worst[0]:
                     worst = (t, name)
             for d, fail in fails:
                 # time failures are keyed by the family (the generator is the "site"); exceptions by their crash site
@@ -627,12 +681,12 @@ def sweeps(ctx):
     _report(ctx, 'nesting / width sweeps', agg, index)
     ctx.bounded.append({'name': 'nesting and width sweeps', 'evaluations': n, 'distinct_nontrivial': len(done),
                         'rule': f'{len(NESTING)} nesting families (each of ( [ {{ and functions in selector, rule, at-rule prelude, value, property-name and priority position, balanced and cut off) at depths {DEPTHS}, '
-                                f'{len(WIDTH)} width families at sizes {WIDTHS} and {len(tnames)} token-internal families (runs of one character or escape inside a string / url( / comment - closed, cut by a line feed or by the '
+                                f'{len(WIDTH)} width families at sizes {WIDTHS}, the {len(numfams)} number families also at the digit counts {DIGIT_COUNTS}, and {len(tnames)} token-internal families (runs of one character or escape inside a string / url( / comment - closed, cut by a line feed or by the '
                                 f'end of input - inside identifiers, at-keywords, hashes, function names, units, and digit runs in every numeric position) at sizes {TOKEN_SIZES_QUICK if ctx.tier == "quick" else TOKEN_SIZES}; '
-                                f'whole contract per input; time clause: result within {budget:.0f} s of CPU time ({"1.5" if ctx.tier == "quick" else f"{budget:.0f}"} s for token families) and t(2x)/t(x) <= {RATIO_LIMIT:.0f} '
+                                f'whole contract per input; time clause: result within {budget:.0f} s of CPU time ({"0.5" if ctx.tier == "quick" else f"{budget:.0f}"} s + 0.5 ms per unit of size for token-internal families) and t(2x)/t(x) <= {RATIO_LIMIT:.0f} '
                                 f'(times under {TIME_FLOOR * 1000:.0f} ms count as {TIME_FLOOR * 1000:.0f} ms); a family stops at the first size that misses the bound; distinct = (family, size) evaluated',
                         'samples': [{'family': 'value f( balanced', 'depth': 5, 'text': NESTING['value f( balanced'][1](5)}],
-                        'bound': f'depth <= 100, width <= 400, token-internal runs <= 8192; slowest family at full size: {worst[1]} {worst[0] * 1000:.0f} ms; {time.time() - t0:.1f} s wall', 'failing_sites': len(agg)})
+                        'bound': f'depth <= 100, width <= 1600 (3200 thorough), token-internal runs <= 8192; slowest family at full size: {worst[1]} {worst[0] * 1000:.0f} ms; {time.time() - t0:.1f} s wall', 'failing_sites': len(agg)})
 
 
 # --------------------------------------------------------------------------------------------------------------------
@@ -915,8 +969,7 @@ assert len(EXTENDED) == len(set(EXTENDED))
 # one probe per token kind, for the longer sequences
 PROBES = ['a', '@x', '@import', '@top-left', '@page', '{', '}', '(', ')', '[', ']', ';', ':', ',', '!', '!important', '"s"', '"', 'url(x)', 'url(', 'f(', 'hsl(', 'var(', '1', '2px', '3%', '+', '-', '#abc', '#',
           '/*c*/', '/*', ' ', '\n', '\\', '\\7d ', '\\{', '\\22 ', '.', '*', '=', 'U+1-2', '<!--', '\xe9']
-PROBES_QUICK = ['a', '@x', '@top-left', '{', '}', '(', ')', '[', ';', ':', ',', '!important', '"', 'url(', 'f(', 'hsl(', '1', '2px', '+', '#abc', '/*c*/', '/*', ' ', '\\', '\\7d ', '\\{', '.', '=', '<!--',
-                '\xe9']
+PROBES_QUICK = ['a', '@x', '@top-left', '{', '}', '(', ')', ';', ':', '!important', '"', 'url(', 'f(', 'hsl(', '1', '+', '#abc', '/*c*/', '/*', ' ', '\\', '\\7d ', '\\{', '\xe9']
 assert all(x in EXTENDED for x in PROBES) and all(x in PROBES for x in PROBES_QUICK)
 
 CONTEXTS = {   # name: (mode, text with one hole)
@@ -1068,7 +1121,7 @@ COLOUR_ENDS = [')', '', ');', ' ', ')}', ') !important']   # the quick tier uses
 
 def _colour_task(args):
     fn, first, maxargs, pool_name = args
-    pool = COLOUR_ARGS_QUICK if pool_name == 'quick' else COLOUR_ARGS
+    pool = COLOUR_ARGS_QUICK if pool_name in ('quick', 'quick4') else COLOUR_ARGS
     agg = {}
     n = 0
     kinds = set()
@@ -1092,9 +1145,11 @@ def _colour_task(args):
 
 def colour_functions(ctx):
     index = _known_index(ctx)
-    maxargs, pool_name = (3, 'quick') if ctx.tier == 'quick' else (4, 'full')
+    maxargs, pool_name = (3, 'quick') if ctx.tier == 'quick' else (3, 'full')
     pool = COLOUR_ARGS_QUICK if pool_name == 'quick' else COLOUR_ARGS
     tasks = [(fn, first, maxargs, pool_name) for fn in COLOUR_FUNCTIONS for first in pool]
+    if ctx.tier != 'quick':
+        tasks += [(fn, first, 4, 'quick4') for fn in COLOUR_FUNCTIONS for first in COLOUR_ARGS_QUICK]
     agg = {}
     kinds = set()
     n = 0
@@ -1105,7 +1160,7 @@ def colour_functions(ctx):
             kinds |= s
     _report(ctx, 'colour functions', agg, index)
     ctx.bounded.append({'name': 'colour functions', 'evaluations': n, 'distinct_nontrivial': len(kinds), 'exhaustive': True,
-                        'rule': f'{COLOUR_FUNCTIONS} x all argument lists of 1..{maxargs} items over {pool} (empty, sign-only, number, percentage, ident, comment, ...) x separators comma / space x '
+                        'rule': f'{COLOUR_FUNCTIONS} x all argument lists of 1..{maxargs} items over {pool}' + ('' if ctx.tier == 'quick' else f' and of 1..4 items over {COLOUR_ARGS_QUICK}') + f' (empty, sign-only, number, percentage, ident, comment, ...) x separators comma / space x '
                                 f'endings {COLOUR_ENDS} (closed, cut off, ...) as rule value, style attribute value, known property and @variables value; distinct = (function, number of arguments, ending)',
                         'samples': [{'text': 'a{b:hsl(+,+,+)}'}, {'text': 'a{b:hsl('}], 'bound': f'<= {maxargs} arguments', 'failing_sites': len(agg)})
 
